@@ -570,7 +570,7 @@ func classifyErr(v ssa.Value, at ssa.Instruction, pred *ssa.BasicBlock, depth in
 			}
 			if g, ok := x.X.(*ssa.Global); ok {
 				// package-level sentinel: ErrFoo = errors.New(...)
-				if strings.HasPrefix(g.Name(), "Err") || strings.HasPrefix(g.Name(), "err") {
+				if strings.HasPrefix(g.Name(), "Err") || strings.HasPrefix(g.Name(), "err") || g.Name() == "EOF" {
 					return errNonNil
 				}
 			}
